@@ -139,6 +139,14 @@ class _TVal(T):
             return v.t
         if isinstance(v, (list, tuple, dict)) and box_any is not None:
             return box_any(v)
+        if isinstance(v, SSeq) or type(v).__name__ == 'MList':
+            # a sequence stored as an element of a container of values: an
+            # opaque value determined by its representation
+            q = v if isinstance(v, SSeq) else v.seq
+            f = z3.Function('box.seq:%s' % q.elem.name, q.arr.sort(),
+                            z3.IntSort(), z3.IntSort(), Val)
+            return f(q.arr, z3.simplify(q.off) if z3.is_expr(q.off)
+                     else z3.IntVal(q.off), z3.simplify(q.length))
         return box(v)
 
 
